@@ -162,7 +162,11 @@ static bool tcp_received(int fd, uint64_t& received) {
 // After the peer closed its end: step until the library's socket has seen the FIN (its TCP state left
 // ESTABLISHED) and the library had a few rounds to react, or the socket is gone.
 static torrent::Handshake* find_hs(uint16_t port, bool retrying);
+static double g_t_q = 0, g_t_c = 0, g_t_a = 0, g_t_adv = 0;
+static double nowf() { struct timespec t; clock_gettime(CLOCK_MONOTONIC, &t); return t.tv_sec + t.tv_nsec * 1e-9; }
+struct Tm { double& acc; double t0; Tm(double& a) : acc(a), t0(nowf()) {} ~Tm() { acc += nowf() - t0; } };
 static void wait_close(Session& S, bool retrying) {
+  Tm tmc(g_t_c);
   int after = 0;
   for (int round = 0; round < 20000 && after < 3; round++) {
     pump(S, {});
@@ -175,6 +179,7 @@ static void wait_close(Session& S, bool retrying) {
     struct tcp_info ti{};
     socklen_t n = sizeof ti;
     if (getsockopt(lfd, IPPROTO_TCP, TCP_INFO, &ti, &n) != 0 || ti.tcpi_state != TCP_ESTABLISHED) { after++; continue; }
+    if (round == 500 && getenv("C06_DEBUG")) fprintf(stderr, "wait_close stuck: lfd=%d state=%d retrying=%d\n", lfd, (int)ti.tcpi_state, (int)retrying);
     struct timespec ts{0, 1000000};
     nanosleep(&ts, nullptr);
   }
@@ -183,6 +188,7 @@ static void wait_close(Session& S, bool retrying) {
 // the library has an outgoing handshake for the current peer but the listener has not seen the
 // connection yet: the SYN / accept queue is the kernel's business, wait for it
 static void wait_accept(Session& S, WirePeer& w) {
+  Tm tm(g_t_a);
   for (int i = 0; i < 300 && w.fd == -1 && lib_fd(S) != -1; i++) {
     struct pollfd pf{w.lfd, POLLIN, 0};
     ::poll(&pf, 1, 100);
@@ -191,8 +197,11 @@ static void wait_accept(Session& S, WirePeer& w) {
 }
 
 static void qpump(Session& S, WirePeer& w) {
+  Tm tm(g_t_q);
+  double tq0 = nowf(); int rounds = 0, infl = 0; struct R { double t0; int& r; int& f; ~R() { if (nowf() - t0 > 5 && getenv("C06_DEBUG")) fprintf(stderr, "qpump slow: %.1fs rounds=%d inflight_rounds=%d\n", nowf() - t0, r, f); } } rr{tq0, rounds, infl};
   for (int round = 0; round < 20000; round++) {
     ltv::pump(S, {&w});
+    rounds++;
     bool inflight = !w.tx_pending.empty();
     uint64_t lr = 0;
     int lfd = lib_fd(S), outq = 0;
@@ -559,7 +568,8 @@ static std::string run_case(Session& S, const std::string& line) {
     pump(S, {});
   } else return "BADCASE";
   S.step();
-  if (S.handshake_count() != 0) S.advance_us(130ll * 1000000);   // a handshake left behind (stuck): let its timeout remove it
+  { Tm tm(g_t_adv); if (S.handshake_count() != 0) S.advance_us(130ll * 1000000); }
+  if (getenv("C06_DEBUG")) fprintf(stderr, "TIMES q=%.2f close=%.2f accept=%.2f adv=%.2f\n", g_t_q, g_t_c, g_t_a, g_t_adv);   // a handshake left behind (stuck): let its timeout remove it
   if (getenv("C06_DEBUG")) fprintf(stderr, "LOG:\n%s\n", g_log.c_str());
   return outp;
 }
